@@ -56,6 +56,7 @@ type scnBMC struct {
 	DCMICaps         map[string]string   `json:"dcmicaps"`
 	PowerReading     string              `json:"powerreading"`
 	LooseSeq         bool                `json:"loose"`
+	FirstSessionID   uint32              `json:"first_session_id"`
 }
 
 type scnSDR struct {
@@ -94,6 +95,8 @@ type scnStep struct {
 	Events   []scnEvent `json:"events"`
 	FSR      string     `json:"fsr"` // sensor: Full Sensor Record body (hex)
 	BMCSet   scnBMC     `json:"bmcset"`
+	KGEmpty  bool       `json:"kg_empty"` // open: KG is a zero-length, non-nil slice (what []byte("") or hex.DecodeString("") give)
+	Reuse    bool       `json:"reuse"`    // cmd: send the very command value of the last step with the same command name again
 }
 
 type scenario struct {
@@ -101,6 +104,7 @@ type scenario struct {
 	TimeoutMs int       `json:"timeout_ms"`
 	BackoffMs int       `json:"backoff_ms"` // >0: constant back-off of this many ms instead of none
 	UDP       bool      `json:"udp"`        // run over the library's real UDP transport (loopback bridge)
+	BackoffMaxRetries int `json:"backoff_max_retries"` // >0: the back-off policy gives up after this many retries (backoff.WithMaxRetries)
 	Steps     []scnStep `json:"steps"`
 	Fresh     bool      `json:"fresh"` // new connection (and BMC) for every step
 }
@@ -276,6 +280,11 @@ func (t *simTransport) Send(ctx context.Context, d []byte) ([]byte, error) {
 		}
 		reply = t.b.Handle(cp)
 		t.b.Intercept = nil
+	case "ccfull":
+		// the genuine response data under completion code <arg>
+		t.b.ForceCC = uint8(atoi(arg))
+		reply = t.b.Handle(cp)
+		t.b.ForceCC = 0
 	default:
 		reply = t.b.Handle(cp)
 	}
@@ -291,6 +300,18 @@ func (t *simTransport) Send(ctx context.Context, d []byte) ([]byte, error) {
 		}
 		<-ctx.Done()
 		return nil, ctx.Err()
+	case "slow":
+		// the genuine reply, late by <arg> ms (a slow BMC or network): still inside the attempt's window if <arg> is
+		if t.udp {
+			time.Sleep(time.Duration(atoi(arg)) * time.Millisecond)
+		} else {
+			select {
+			case <-time.After(time.Duration(atoi(arg)) * time.Millisecond):
+			case <-ctx.Done():
+				t.deliv = append(t.deliv, "")
+				return nil, ctx.Err()
+			}
+		}
 	case "garbage":
 		n := 1 + t.rng.Intn(60)
 		reply = make([]byte, n)
@@ -480,6 +501,7 @@ func newSimBMC(c scnBMC) *sim.BMC {
 	if c.Addition != 0 || c.Erase != 0 {
 		b.AdditionTS, b.EraseTS = c.Addition, c.Erase
 	}
+	b.NextSessionID = c.FirstSessionID
 	if c.LooseSeq {
 		// every command may be issued outside a session
 		for _, k := range []sim.CmdKey{{0, 1, 0}, {0, 2, 0}, {6, 1, 0}, {6, 0x37, 0}, {6, 0x38, 0}, {6, 0x3b, 0}, {6, 0x3c, 0},
@@ -511,7 +533,7 @@ func (c *rawCmd) Name() string                        { return "Raw" }
 func (c *rawCmd) Operation() *ipmi.Operation          { return &c.op }
 func (c *rawCmd) RemoteLUN() ipmi.LUN                 { return c.lun }
 func (c *rawCmd) Request() gopacket.SerializableLayer { return gopacket.Payload(c.body) }
-func (c *rawCmd) Response() gopacket.DecodingLayer    { return nil }
+func (c *rawCmd) Response() gopacket.DecodingLayer    { return &c.rsp }
 
 func p(c scnCmd, i int) int64 {
 	if i < len(c.P) {
@@ -695,6 +717,12 @@ type scnState struct {
 	conn   *bmc.V2SessionlessTransport
 	sess   *bmc.V2Session
 	bridge *udpBridge
+	last   map[string]builtCmd // the command value last sent under each command name (for "reuse")
+}
+
+type builtCmd struct {
+	cmd ipmi.Command
+	rsp func() decLayer
 }
 
 func (st *scnState) close() {
@@ -714,6 +742,9 @@ func newState(sc *scenario) *scnState {
 	var bo backoff.BackOff = zeroBackOff{}
 	if sc.BackoffMs > 0 {
 		bo = backoff.NewConstantBackOff(time.Duration(sc.BackoffMs) * time.Millisecond)
+	}
+	if sc.BackoffMaxRetries > 0 {
+		bo = backoff.WithMaxRetries(bo, uint64(sc.BackoffMaxRetries))
 	}
 	if sc.UDP {
 		br, err := startBridge(t)
@@ -797,6 +828,13 @@ func runStepM(st *scnState, step *scnStep, withMetrics bool) (res stepResult) {
 		switch step.Op {
 		case "cmd":
 			cmd, rsp := buildCmd(step.Cmd)
+			if prev, ok := st.last[step.Cmd.Name]; ok && step.Reuse {
+				cmd, rsp = prev.cmd, prev.rsp
+			}
+			if st.last == nil {
+				st.last = map[string]builtCmd{}
+			}
+			st.last[step.Cmd.Name] = builtCmd{cmd, rsp}
 			code, err := connection.SendCommand(ctx, cmd)
 			res.Code = int(code)
 			res.Err = classifyErr(err)
@@ -805,6 +843,9 @@ func runStepM(st *scnState, step *scnStep, withMetrics bool) (res stepResult) {
 			}
 			if err == nil && rsp != nil {
 				res.Rsp = showRsp(rsp())
+			}
+			if rc, ok := cmd.(*rawCmd); ok && err == nil {
+				res.Rsp = "raw " + hex.EncodeToString(rc.rsp)
 			}
 		case "open":
 			opts := &bmc.V2SessionOpts{
@@ -816,6 +857,9 @@ func runStepM(st *scnState, step *scnStep, withMetrics bool) (res stepResult) {
 				PrivilegeLevelLookup: step.Lookup,
 				KG:                   unhexOrEmpty(step.KG),
 				CipherSuites:         suitesOf(step.Suites),
+			}
+			if step.KGEmpty {
+				opts.KG = []byte{}
 			}
 			sess, err := st.conn.NewV2Session(ctx, opts)
 			res.Err = classifyErr(err)
